@@ -14,6 +14,8 @@ SIM_PUBLIC = {"vorticity_field", "velocity_field", "eul_grid_forcing_field", "pr
 SIM_OUTPUT = {"vorticity_field", "velocity_field", "eul_grid_forcing_field", "primary_field"}
 VBF_PUBLIC = {"lag_grid_position_mismatch_field", "lag_grid_velocity_mismatch_field"}
 
+CASE_SPLIT = True     # orderings between different grid sizes are analysed case by case (regions.run_under_size_cases)
+
 
 def final_roots(st, alloc):
     import itertools
